@@ -356,8 +356,9 @@ def eval_budget(job, only=None):
                 if q in seen or not q or not q.isascii() or q.startswith('-'):
                     continue
                 seen.append(q)
-            res['lookup'] = {'keys': keys, 'descs': descs, 'obs': []}
-            for q in seen[:14]:
+            if keys:        # with no transaction at all explain stops at "No transactions found" before any lookup
+                res['lookup'] = {'keys': keys, 'descs': descs, 'obs': []}
+            for q in (seen[:14] if keys else []):
                 rc, out, err = B.run_cli(['explain', q, cfg, '--format', 'json'])
                 res['n_cli'] += 1
                 names = re.findall(r'^  "name": "((?:[^"\\\\]|\\\\.)*)",?$', out, re.M)
@@ -709,7 +710,7 @@ def main(tier):
 
     B.clean_work(PROP)
     rnd = random.Random(run.seed * 104729 + 16)
-    n = 36 if tier == 'quick' else 800
+    n = 36 if tier == 'quick' else 160
     jobs = [(k, spec, probes) for k, (spec, probes) in enumerate(corpus())]
     for k, spec, _ in jobs:
         if k % 2 == 0 or spec.get('ask_all'):
